@@ -853,7 +853,8 @@ def c05(tier):
 def c06(tier):
     twin = lambda name: dict(T("graph", "VerifC06_OperandOrder", dict(FAMS[name][0]), **FIRST), _reach=["accepted"])  # noqa
     graph_check("C06", 6, tier, [("A", *AL), ("C", *RA), ("H", *RR), ("L", *RR), ("K", *RR)], THOROUGH_GRAPH, reach=["return"],
-                extra_jobs=[twin("B"), twin("K"), twin("N")] + ([twin("D")] if tier == "thorough" else []))
+                extra_jobs=[twin("B"), twin("K"), twin("N")] + ([twin("D")] if tier == "thorough" else []) +
+                [dict(T("graph", "VerifC06_Names", {}, sched="rot", sched_funcs=["AssignWeights", "WeightedAuthorizationModelGraphBuilder"], sched_other="first", prune=True), _reach=["accepted", "rejected"])])
 
 
 def c10(tier):
